@@ -111,7 +111,10 @@ func (t *Input) CoerceIn(v interface{}) (interface{}, error) {
 				rv = reflect.New(rt)
 			}
 		}
-		for k, f := range t.fields.dict {
+		// Walk the fields in declared order, not in the random order of the
+		// dict, so the same input always gives the same result and error.
+		for _, f := range t.fields.list {
+			k := f.N
 			ov := tv[k]
 			if ov == nil {
 				if f.Default != nil { // if not set then add the default value if not nil
